@@ -142,7 +142,7 @@ def write_texts(path: Path, texts):
     return n
 
 
-def run_enum(spec: dict, profile: str, nshards=16):
+def run_enum(spec: dict, profile: str, nshards=16, env_extra=None):
     """runs `vprobe enum` sharded; returns (anomalies, merged summary)"""
     exe = build_probe(profile)
     WORK.mkdir(exist_ok=True)
@@ -153,8 +153,11 @@ def run_enum(spec: dict, profile: str, nshards=16):
         sp["nshards"] = nshards
         spath = WORK / f"enum_{profile}_{spec.get('tag', 'x')}_{s}.json"
         spath.write_text(json.dumps(sp))
+        env = dict(ENV)
+        if env_extra:
+            env.update(env_extra)
         procs.append((spath, subprocess.Popen([str(exe), "enum", str(spath)], stdout=subprocess.PIPE,
-                                              stderr=subprocess.DEVNULL, env=ENV, text=True)))
+                                              stderr=subprocess.DEVNULL, env=env, text=True)))
     anomalies = []
     summary = {}
     died = []
